@@ -112,6 +112,12 @@ class SymArray(np.ndarray):
             return _wrap_obj(r)
         return r
 
+    def __getitem__(self, key):
+        # boolean mask made of symbolic conditions: each condition is decided on the current path (forks the exploration)
+        if isinstance(key, np.ndarray) and key.dtype == object and key.size and all(isinstance(b, (core.B, bool, np.bool_)) for b in key.reshape(-1)):
+            key = np.array([bool(b) for b in key.reshape(-1)], dtype=bool).reshape(key.shape)
+        return super().__getitem__(key)
+
     @staticmethod
     def _store(r, out):
         if out is not None:
